@@ -18,6 +18,8 @@ CONSTANTS Family,     \* "econ" | "attest" | "valset" | "registry"
           Amts, Fees, \* amounts and fees of user sends
           Users, SendChains, Denoms, DepChains, DepDests, \* alphabet of the econ family
           MaxSends, MaxDeposits, MaxBlocks, \* bounds that keep the exhaustive runs finite and small
+          Orchs, Exts, KeyChains, KeyVariants, \* alphabet of the valset / registry family
+          KeepHist,   \* TRUE: carry the action history (simulation; counterexample extraction)
           TwoLevel,   \* TRUE (simulation): first pick an action kind uniformly, then its parameters
           EmitScripts \* TRUE: print a script whenever a behaviour reaches MaxLen
 
@@ -70,7 +72,7 @@ Do(a) ==
         r   == Step(hub, act)
         res == [out |-> r.out, id |-> r.id]
     IN /\ hub' = r.s
-       /\ hist' = IF EmitScripts THEN Append(hist, act) ELSE hist
+       /\ hist' = IF KeepHist THEN Append(hist, act) ELSE hist
        /\ cnt' = cnt + 1
        /\ g' = GhostNext(g, hub, act, res, r.s)
        /\ bad' = StepChecks(g, hub, act, res, r.s) \cup C01Step(hub, act, r.s)
@@ -78,7 +80,7 @@ Do(a) ==
 \* an action of the external world: no hub step, recorded in the script as a no-op line
 ExtDo(a, newExt) ==
     /\ xw' = newExt
-    /\ hist' = IF EmitScripts THEN Append(hist, [a EXCEPT !.i = cnt + 1]) ELSE hist
+    /\ hist' = IF KeepHist THEN Append(hist, [a EXCEPT !.i = cnt + 1]) ELSE hist
     /\ cnt' = cnt + 1
     /\ UNCHANGED <<hub, g>>
     /\ bad' = {}
@@ -148,7 +150,7 @@ AttestNext ==
                 r2 == Step(r1.s, a2)
                 r3 == Step(r2.s, a3)
             IN /\ hub' = r3.s
-               /\ hist' = IF EmitScripts THEN hist \o <<a1, a2, a3>> ELSE hist
+               /\ hist' = IF KeepHist THEN hist \o <<a1, a2, a3>> ELSE hist
                /\ cnt' = cnt + 3
                /\ g' = g
                /\ bad' = StepChecks(g, hub, a1, [out |-> r1.out, id |-> 0], r1.s)
@@ -170,21 +172,50 @@ StakeChange ==
     /\ \E v \in Vals, p \in {0, 1, 2, 3} :
           /\ p # hub.stk[v].p
           /\ hub' = [hub EXCEPT !.stk[v].p = p, !.stk[v].b = (p > 0), !.tot = hub.tot - hub.stk[v].p + p]
-          /\ hist' = IF EmitScripts THEN Append(hist, [k |-> "Stake", i |-> cnt + 1, val |-> v, p |-> p]) ELSE hist
+          /\ hist' = IF KeepHist THEN Append(hist, [k |-> "Stake", i |-> cnt + 1, val |-> v, p |-> p]) ELSE hist
           /\ cnt' = cnt + 1
           /\ UNCHANGED <<xw, g>>
           /\ bad' = {}
 
+\* ---------------------------------------------------------------- valset / registry family
+SetKeys ==
+    /\ hub.inb
+    /\ \E v \in Vals, o \in Orchs, e \in Exts, c \in KeyChains, variant \in KeyVariants :
+          Do([k |-> "SetKeys", i |-> 0, val |-> v, orch |-> o, ext |-> e, chain |-> c,
+              txby   |-> IF variant = "wrongtx" THEN "a1" ELSE v,
+              sigkey |-> IF variant = "wrongkey" THEN "e9" ELSE e,
+              sigseq |-> IF variant = "stale" THEN -1 ELSE 0,
+              sigval |-> IF variant = "wrongval" THEN (CHOOSE w \in Vals : w # v) ELSE v])
+    /\ UNCHANGED xw
+TxRefs(c) == {[t |-> "ss", n |-> x.n] : x \in hub.ch[c].ss} \cup {[t |-> "bat", tok |-> b.tok, n |-> b.n] : b \in hub.ch[c].bat}
+                \cup {[t |-> "ss", n |-> 9]}
+Confirm ==
+    /\ hub.inb
+    /\ \E by \in Vals \cup Orchs \cup {"a1"}, c \in KeyChains : \E tx \in TxRefs(c), e \in Exts \cup {"zero"}, key \in {"same", "e9"} :
+          Do([k |-> "Confirm", i |-> 0, by |-> by, chain |-> c, tx |-> tx, ext |-> e,
+              key |-> IF key = "same" /\ e # "zero" THEN e ELSE "e9"])
+    /\ UNCHANGED xw
+
+\* a confirmation that should be accepted: a bonded validator with a key (or its orchestrator) signs a stored tx
+ConfirmGood ==
+    /\ hub.inb
+    /\ \E c \in KeyChains : \E v \in BondedWithKey(hub, c), tx \in TxRefs(c) :
+          /\ TxExists(hub, c, tx) /\ ~Has(SigsOf(hub, c, tx), v)
+          /\ \E by \in {v} \cup {o \in DOMAIN hub.ch[c].ov : hub.ch[c].ov[o] = v} :
+                Do([k |-> "Confirm", i |-> 0, by |-> by, chain |-> c, tx |-> tx, ext |-> hub.ch[c].ve[v], key |-> hub.ch[c].ve[v]])
+    /\ UNCHANGED xw
+
 Kinds(fam) ==
     CASE fam = "econ"   -> {"Begin", "End", "Send", "Cancel", "ReqBatch", "ExtDeposit", "ExtExec", "ExtMine", "AttestNext"}
       [] fam = "attest" -> {"Begin", "End", "ClaimOne", "StakeChange"}
+      [] fam = "valset" -> {"Begin", "End", "SetKeys", "Confirm", "ConfirmGood", "StakeChange", "Send", "ReqBatch"}
       [] OTHER -> {"Begin", "End"}
 
 ActionOf(kind) ==
     CASE kind = "Begin" -> Begin [] kind = "End" -> End [] kind = "Send" -> Send [] kind = "Cancel" -> Cancel
       [] kind = "ReqBatch" -> ReqBatch [] kind = "ExtDeposit" -> ExtDeposit [] kind = "ExtExec" -> ExtExec
       [] kind = "ExtMine" -> ExtMine [] kind = "AttestNext" -> AttestNext [] kind = "ClaimOne" -> ClaimOne
-      [] kind = "StakeChange" -> StakeChange [] OTHER -> FALSE
+      [] kind = "StakeChange" -> StakeChange [] kind = "SetKeys" -> SetKeys [] kind = "Confirm" -> Confirm [] kind = "ConfirmGood" -> ConfirmGood [] OTHER -> FALSE
 
 Next ==
     /\ cnt < MaxLen
@@ -201,9 +232,11 @@ Spec == Init /\ [][Next]_vars
 View == <<hub, xw, g, bad>>
 
 \* ---------------------------------------------------------------- invariants
-NoStepViolation == \A f \in bad : Excused(f)
+\* with KeepHist a violating behaviour is written out as a script ($VERIF_CEX) for replay on the real code
+DumpCex == IF KeepHist THEN JsonSerialize(IOEnv.VERIF_CEX, hist) ELSE TRUE
+NoStepViolation == (\A f \in bad : Excused(f)) \/ (DumpCex /\ FALSE)
 
-Solvency == Solvent(hub, xw)
+Solvency == Solvent(hub, xw) \/ (DumpCex /\ FALSE)
 
 \* ---------------------------------------------------------------- script output (simulation mode)
 \* one file per behaviour: $VERIF_OUT/s<k>.json, k = number of the behaviour in this simulation run
